@@ -26,6 +26,9 @@ var ErrInjectedIO = status.Error(codes.Internal, "verif: injected I/O fault")
 // returns the error to inject, if this is the faulted position. Cancel kinds
 // cancel the run's context and let the operation proceed.
 func (p *Plan) Op(component, op, detail string) error {
+	if p.OnOp != nil {
+		p.OnOp(component, op, detail, false)
+	}
 	_, f := p.next(component, op, detail, 0, true)
 	switch f {
 	case FaultErrDiscard, FaultErrAfterRead, FaultSticky:
@@ -36,6 +39,15 @@ func (p *Plan) Op(component, op, detail string) error {
 		}
 	}
 	return nil
+}
+
+// OpDone tells the plan's observer (OnOp) that an operation announced
+// through Op has returned to the worker code. It is neither counted nor a
+// fault position.
+func (p *Plan) OpDone(component, op, detail string) {
+	if p.OnOp != nil {
+		p.OnOp(component, op, detail, true)
+	}
 }
 
 // FaultyBuildDirectory wraps a builder.BuildDirectory: every operation the
@@ -154,6 +166,7 @@ func (d *FaultyBuildDirectory) Readlink(name path.Component) (path.Parser, error
 
 // UploadFile implements UploadableDirectory.
 func (d *FaultyBuildDirectory) UploadFile(ctx context.Context, name path.Component, digestFunction digest.Function, writableFileUploadDelay <-chan struct{}) (digest.Digest, error) {
+	defer d.plan.OpDone("dir", "UploadFile", d.at+"/"+name.String())
 	if err := d.plan.Op("dir", "UploadFile", d.at+"/"+name.String()); err != nil {
 		return digest.BadDigest, err
 	}
